@@ -15,9 +15,11 @@ def _hang_problem(ist):
     return [{"kind": "hang", "step": -1, "at": None, "detail": "implementation did not return within the watchdog"}]
 
 
-def run_oracles(prop, case, ist, iobs, flavor):
+def run_oracles(prop, case, ist, iobs, flavor, replay=False):
     """problems found by the monitors of `prop` on one implementation run"""
     spec = PROPS[prop]
+    if spec.get("oracles_on_replay_only") and not replay:
+        return []
     if ist == "hang":
         return _hang_problem(ist) if spec.get("hang_is_violation") else []
     if ist == "crash":
@@ -28,15 +30,130 @@ def run_oracles(prop, case, ist, iobs, flavor):
     return out
 
 
+def _lazy(name):
+    def f(tier, seed):
+        from . import qchecks
+        return getattr(qchecks, name)(tier, seed)
+    f.__name__ = name
+    return f
+
+
+def _lazy2(name):
+    def f(tier, seed):
+        from . import multichecks
+        return getattr(multichecks, name)(tier, seed)
+    f.__name__ = name
+    return f
+
+
+def _c07_builtin(case, obs, flavor):
+    from . import multichecks
+    return multichecks.c07_builtin_failure(case, obs, flavor)
+
+
+def _c16_replay_monitor(case, obs, flavor):
+    """used only to replay a C16 finding in-process: rebuild and rerun the case several times"""
+    from . import impl
+    base = None
+    for k in range(12):
+        junk = [object() for _ in range(k * 37)]
+        st, o = impl.run_guarded(flavor if flavor in ("sync", "async") else "sync", case, 8)
+        if base is None:
+            base = o
+        elif o != base:
+            return [{"kind": "nondeterministic", "step": -1, "at": None, "detail": "two in-process runs of the same case differ"}]
+    return []
+
+
 PROPS = {
     "C01": {
         "flavors": ["sync", "async"],
-        "streams": [("core", "sync", 250), ("history", "sync", 150), ("done", "sync", 100), ("loops", "sync", 100),
-                    ("core", "async", 150), ("history", "async", 100), ("loops", "async", 60)],
+        "streams": [("core", "sync", 200), ("history", "sync", 150), ("done", "sync", 80), ("loops", "sync", 80), ("actions", "sync", 80),
+                    ("core", "async", 150), ("history", "async", 100), ("loops", "async", 60), ("faults", "async", 60)],
         "oracles": [oracles.c01_legal],
         "thorough_scale": 10,
     },
+    "C02": {
+        "flavors": ["sync", "async"],
+        "streams": [("select", "sync", 250), ("core", "sync", 100), ("descr", "sync", 100), ("select", "async", 150), ("actions", "async", 60)],
+        "oracles": [oracles.c02_selection],
+        "thorough_scale": 10,
+    },
+    "C03": {
+        "flavors": ["sync", "async"],
+        "streams": [("core", "sync", 200), ("history", "sync", 100), ("done", "sync", 60), ("actions", "sync", 60),
+                    ("core", "async", 120), ("history", "async", 60), ("select", "async", 60)],
+        "oracles": [oracles.c03_order_accounting],
+        "thorough_scale": 10,
+    },
+    "C05": {
+        "flavors": ["sync", "async"],
+        "streams": [("core", "sync", 60), ("core", "async", 60)],
+        "oracles": [],
+        "q_checks": [_lazy2("c05_cross_engine")],
+        "thorough_scale": 6,
+    },
+    "C06": {
+        "flavors": ["sync", "async"],
+        "streams": [("select", "sync", 150), ("select", "async", 80)],
+        "oracles": [oracles.c02_selection],
+        "q_checks": [_lazy("c06_guard_eval"), _lazy("c06_guard_parse")],
+        "thorough_scale": 8,
+    },
+    "C07": {
+        "flavors": ["sync", "async"],
+        "streams": [("faults", "sync", 150), ("faults", "async", 150)],
+        "oracles": [oracles.c01_legal, _c07_builtin],
+        "q_checks": [_lazy2("c07_twin"), _lazy2("c07_builtin_cases")],
+        "thorough_scale": 6,
+    },
+    "C10": {
+        "flavors": ["sync", "async"],
+        "streams": [("done", "sync", 250), ("loops", "sync", 80), ("core", "sync", 80), ("done", "async", 150), ("loops", "async", 60)],
+        "oracles": [oracles.c10_completion, oracles.c10_ondone, oracles.c10_ondone_raised],
+        "thorough_scale": 10,
+    },
+    "C11": {
+        "flavors": ["sync", "async"],
+        "streams": [("history", "sync", 300), ("core", "sync", 100), ("history", "async", 200)],
+        "oracles": [oracles.c11_history],
+        "thorough_scale": 10,
+    },
+    "C13": {
+        "flavors": ["sync", "async"],
+        "streams": [("loops", "sync", 250), ("loops", "async", 250), ("done", "async", 100), ("actions", "async", 60)],
+        "oracles": [oracles.c01_legal],
+        "hang_is_violation": True,
+        "thorough_scale": 8,
+    },
+    "C16": {
+        "flavors": ["sync", "async"],
+        "streams": [("history", "sync", 60), ("history", "async", 60)],
+        "oracles": [_c16_replay_monitor],
+        "oracles_on_replay_only": True,
+        "q_checks": [_lazy2("c16_determinism")],
+        "thorough_scale": 5,
+    },
+    "C20": {
+        "flavors": ["sync", "async"],
+        "streams": [("descr", "sync", 250), ("descr", "async", 100)],
+        "oracles": [oracles.c02_selection],
+        "q_checks": [_lazy("c20_match")],
+        "thorough_scale": 8,
+    },
 }
 
-# named predicates over (problem, minimised case, flavor) used by known_findings.json
-CLASSIFIERS = {}
+
+# named predicates over (problem, minimised case, flavor) used by known_findings.json -------------
+def _root_has_ondone(prob, case, flavor):
+    return prob.get("kind") == "not-completed" and bool(case["machine"].get("onDone"))
+
+
+def _shadowed_done(prob, case, flavor):
+    return prob.get("kind") == "done-event-missing" and bool(prob.get("shadowed_by"))
+
+
+CLASSIFIERS = {
+    "root-declares-onDone": _root_has_ondone,
+    "outer-done-shadowed-by-nearer-onDone": _shadowed_done,
+}
